@@ -52,7 +52,14 @@ def h20(c, mode="sim", K=3, n_markets=2):
         if mode == "sim":
             fl, clients, strategies = cm.new_sim(n_strategies=2, n_clients=2, hooks=[dict(process_closed_market=closed_cb(0)), dict(process_closed_market=closed_cb(1))])
         else:
-            fl, client, strategies = cm.new_live(n_strategies=2, hooks=[dict(process_closed_market=closed_cb(0)), dict(process_closed_market=closed_cb(1))])
+            cleared_reqs = []
+
+            def list_cleared_orders(**kw):
+                cleared_reqs.append((kw["market_ids"][0], kw.get("group_by")))
+                return cm.NS(orders=[cm.NS(market_id=kw["market_ids"][0])], more_available=False)
+
+            fl, client, strategies = cm.new_live(n_strategies=2, hooks=[dict(process_closed_market=closed_cb(0)), dict(process_closed_market=closed_cb(1))],
+                                                 exchange=cm.NS(list_cleared_orders=list_cleared_orders))
             clients = [client]
         for i, s in enumerate(strategies):
             if subs[i] == "stream":
@@ -105,6 +112,7 @@ def h20(c, mode="sim", K=3, n_markets=2):
                     c.ob("update%d.reopened" % k, market is not None and market.closed is False and market.orders_cleared == [] and market.market_cleared == [])
                     c.cover("reopened")
                     sh["closed"] = False
+                    sh["cleared"] = False
                 sh["seen"] = True
                 continue
             # ---- a CLOSED update
@@ -148,6 +156,20 @@ def h20(c, mode="sim", K=3, n_markets=2):
             sh["closed"] = True
             sh["closes"] += 1
             sh["last_close_time"] = now
+            if mode == "live" and fl.markets.markets.get(mid) is not None:
+                # the closure poll of the live framework (real worker function against an exchange double): after each closing update
+                # the market's cleared orders AND its cleared-market summary are requested once each
+                from flumine import worker
+                n0 = len(cleared_reqs)
+                with c.guard("poll_market_closure"):
+                    worker.poll_market_closure({}, fl)
+                    _drain(fl, log)
+                mine = [r for r in cleared_reqs[n0:] if r[0] == mid]
+                want = 1  # (every closing update re-opens the market first - data arrived again - so each one is a fresh closure)
+                c.ob("update%d.closure-poll.cleared-orders-requested" % k, len([r for r in mine if r[1] is None]) == want, got=len([r for r in mine if r[1] is None]), want=want)
+                c.ob("update%d.closure-poll.cleared-market-requested" % k, len([r for r in mine if r[1] == "MARKET"]) == want, got=len([r for r in mine if r[1] == "MARKET"]), want=want)
+                sh["cleared"] = True
+                c.cover("closure-poll")
             if mode == "live":
                 # removal rule: only markets that have been closed for more than an hour are removed
                 for m2, s2 in shadow.items():
